@@ -1,66 +1,87 @@
 from common import LEAN_TB
 
-CFG = {'lean_modules': ['ObiVerif.Props.C13'],
+CFG = {'lean_modules': ['ObiVerif.Props.C13', 'ObiVerif.Props.C13W'],
  'gen': True,
  'thorough_seeds': 8,
- 'rule': ('cases = (workers 1..32, --distance 0..3, --ratio p/q in {1, 1/2, 1/10, 5/100, 1/4, 1/3, 2/3, 1/1000, 0, 2, 99/100, 2/7, 3/10; dyadic only for '
- 'distance > 1}): `g` = one sample of up to 40 (quick) / 60 (thorough) sequences over acgt (IUPAC codes in part of the distance > 1 cases): stars (a '
- 'hub and many one-difference variants: substitution / insertion / deletion, ends and runs of equal symbols favoured), chains, stars of stars, '
- 'two-difference variants, duplicates, unrelated sequences, counts with many ties; contention stars of 40..200 sons of ONE father with 8..32 '
- 'workers; the corpus starts with the 120-sequence star on which the unrepaired code loses increments. Deepening round 2: ratio BOUNDARY samples '
- '(weight(son)/weight(father) exactly (p/q)^d for d = 1, 2, 3, and hub count +-1 around it, also as three samples a/b/c of one data set), hub + '
- 'variants by one or two indels / substitutions at the FIRST and LAST positions, samples whose counts are all equal (or two values) with --distance '
- '1..3 (the second phase ignores the counts: the stable order decides), `a` = data set of up to 40 sequences spread over 2..5 samples sharing '
- 'sequences through the hook that replays the steps, `c` = the same through the REAL CLIOBIClean with --distance, --ratio, --head 0/1 and the worker '
- 'count set as the option parser sets them (records written, in output order, with all their obiclean_* annotations). Every case is executed with '
- 'its own worker count (result compared with the model), with 1 worker (independent oracle: graph for `g`, every annotation of every record for '
- '`a`/`c`, also for distance > 1 when the sequences are plain acgt) and then with workers 1,2,3,4,5,6,8,12,16,24,32,64 x 3 runs (quick) / '
- '1..32,40,48,64 x 14 runs (thorough), all results required identical; thorough (first seed): four cases replayed through a `go build -race` build '
- 'of the harness. non-trivial = distinct well-formed case with at least two sequences'),
- 'technique': ('Lean 4 theorems on a sequential model of the graph construction and on an interleaving model of the worker pool (threads of atomic or split '
- 'load/store micro-steps on shared counters, quantified over every row distribution and every interleaving) + differential correspondence with the '
- 'real obiclean functions driven through a verif hook + independent sequential oracle (Levenshtein matrix, textbook LCS matrix for distance > 1, '
- 'integer weights, exact ratio test, per-record annotations and --head selection) + equality across worker counts and repeated runs + Go race '
- 'detector (thorough)'),
- 'level_text': ('Proved for all inputs: atomic_any_schedule (any threads of atomic increments, every interleaving: each counter ends at the number of increments); '
- 'split_loses_update (two non-atomic x++ : an interleaving ends at 1) and graph_split_schedule_dependent (the same on the graph model: a 3-sequence '
- 'sample, 2 workers, result differs from the reference); edge_iff / edge_iff_sample (row i of the count-sorted sample has an edge to j iff count j > '
- 'count i and Levenshtein distance exactly 1, via d1or0_spec of C09, all sequences); sort_spec; mutation_reproduces_edit (every edge: distance 1, '
- 'position n >= 0 and symbols such that father = son edited at n); status_spec; sons_exact; graph_schedule_independent (atomic increments: for every '
- 'kernel pair, distance and ratio, sample, every number of workers, every distribution/order of the rows over the workers and every complete '
- 'interleaving, in both parallel phases, the result (edges, son counts, weights, statuses) equals the sequential reference cleanSample) and '
- 'graph_any_two_schedules_agree. Deepening round: reweight_terminates (cleanSample never yields the hang outcome: the fuel n+2 always suffices), '
- 'reweight_two_turns, reweight_graph_forward, reweight_hang_reachable (with a backward edge and a lost increment the fuel does run out: the outcome '
- 'is not dead code), sort_stable (the count sort keeps the input order among ties). Deepening round 2: edge2_iff (--distance d > 1, '
- 'extendSimilarityGraph: a row without distance-one father is linked to row j iff j is later in the stable count order, the edit distance is >= 2 '
- 'and the optimal LCS alignment has <= d differences; the edge is unique and carries exactly that number; via fastLCS_decides_bound and d1or0_spec '
- 'of C09, |a|+|b| < 30000), ratio_test_rational (the integer test of the model is w1/wf <= (p/q)^dist over Rat), output_edges_exact (every distance '
- 'and ratio: the edges obiclean ends with are exactly the edges of edge_iff / edge2_iff that pass the ratio test on the weights written for the two '
- 'nodes), dataset_schedule_independent (data set of several samples: for every per-sample schedule every annotation of every record and the records '
- 'written with or without --head equal the sequential reference cleanDataset), dataset_terminates, annot_counts_spec (head / internal / singleton / '
- 'sample counts and obiclean_head as functions of the per-sample statuses), cli_head_spec (--head writes exactly the records with obiclean_head, '
- 'input order, each once), mutation_value_function_of_pair (every obiclean_mutation entry is a function of the son and father sequences only: two '
- 'samples can only write the same value under the same key, so the map iteration order over samples cannot show).'),
- 'level_note': ('Trusted: Lean kernel; the transcriptions Model/Clean.lean, Model/Race.lean; that the repaired increment (under a sync.Mutex) is indivisible (Go '
- 'memory model) - cross-checked by the race detector in the thorough tier. The theorems are about the interleaving MODEL: real goroutine schedules '
- 'are exercised (workers 1..64 x repeats on 16 cores, all outputs equal), not enumerated. Floats are not modelled: math.Round(w*c/swf) and w1/wf <= '
- 'ratio^dist are exact rational arithmetic in the model (ratio_test_rational proves the integer form equals the Rat form), which agrees with float64 '
- 'while w*c < 2^52 and wf*q < 2^52 (and, for distance > 1, a dyadic ratio) - tied by the correspondence check (now with exact-boundary cases w1/wf = '
- '(p/q)^d) and the integer oracle only. The weights themselves (reweightSequences) have no closed-form theorem: they are the output of the '
- 'transcribed loop (terminating, two turns: reweight_terminates / reweight_two_turns), tied by correspondence and the independent oracle. edge_iff / '
- 'edge2_iff are stated on d1F / bandLCS (structural layers of C09); the verbatim index-loop layers are executed side by side on every pair of every '
- 'case (layer-mismatch otherwise). edge2_iff needs |a|+|b| < 30000 (sentinel of the kernel, hypothesis of the C09 theorems). annot_counts_spec does '
- 'not prove that obiclean_samplecount equals the size of merged_sample (it is the number of status entries; equality is tied by the oracle). The '
- 'data-set model writes records in input order: true for the real code while the data set fits one batch (<= 1000 records; the harness stays below), '
- 'the batch reordering of FilterOn / the writer is property C03/C05 territory. Stability of the sort is proved (sort_stable).'),
+ 'rule': 'cases = (workers 1..32, --distance 0..3, --ratio p/q in {1, 1/2, 1/10, 5/100, 1/4, 1/3, 2/3, 1/1000, 0, 2, 99/100, 2/7, 3/10; dyadic only for '
+         'distance > 1}): `g` = one sample of up to 40 (quick) / 60 (thorough) sequences over acgt (IUPAC codes in part of the distance > 1 cases): stars (a '
+         'hub and many one-difference variants: substitution / insertion / deletion, ends and runs of equal symbols favoured), chains, stars of stars, '
+         'two-difference variants, duplicates, unrelated sequences, counts with many ties; contention stars of 40..200 sons of ONE father with 8..32 workers; '
+         'the corpus starts with the 120-sequence star on which the unrepaired code loses increments. Deepening round 2: ratio BOUNDARY samples '
+         '(weight(son)/weight(father) exactly (p/q)^d for d = 1, 2, 3, and hub count +-1 around it, also as three samples a/b/c of one data set), hub + '
+         'variants by one or two indels / substitutions at the FIRST and LAST positions, samples whose counts are all equal (or two values) with --distance '
+         '1..3 (the second phase ignores the counts: the stable order decides), `a` = data set of up to 40 sequences spread over 2..5 samples sharing '
+         'sequences through the hook that replays the steps, `c` = the same through the REAL CLIOBIClean with --distance, --ratio, --head 0/1 and the worker '
+         'count set as the option parser sets them (records written, in output order, with all their obiclean_* annotations). Every case is executed with its '
+         'own worker count (result compared with the model), with 1 worker (independent oracle: graph for `g`, every annotation of every record for `a`/`c`, '
+         'also for distance > 1 when the sequences are plain acgt) and then with workers 1,2,3,4,5,6,8,12,16,24,32,64 x 3 runs (quick) / 1..32,40,48,64 x 14 '
+         'runs (thorough), all results required identical; thorough (first seed): four cases replayed through a `go build -race` build of the harness. '
+         'Deepening round 3: `c` data sets of SEVERAL batches of 1000 records (1100 and 1250 records in quick, 1001..2600 in thorough, 26 samples, with and '
+         'without --head) through the real CLIOBIClean, the batches of the returned iterator collected in arrival order (hook VerifCLIOBICleanBatches) and '
+         're-sequenced by their order number as the writers do: numbers must be 0..k-1, every batch but the last must hold 1000 records, records compared with '
+         'the model in output order (arrival out of order does occur: statistic batches:arrival-out-of-order); vm_C13 recomputes the closed form of the '
+         'weights next to the loop on every sample (spec-mismatch). non-trivial = distinct well-formed case with at least two sequences',
+ 'technique': 'Lean 4 theorems on a sequential model of the graph construction and on an interleaving model of the worker pool (threads of atomic or split '
+              'load/store micro-steps on shared counters, quantified over every row distribution and every interleaving) + differential correspondence with '
+              'the real obiclean functions driven through a verif hook + independent sequential oracle (Levenshtein matrix, textbook LCS matrix for distance > '
+              '1, integer weights, exact ratio test, per-record annotations and --head selection) + equality across worker counts and repeated runs + Go race '
+              'detector (thorough) + closed form of the weights recomputed by the model executable next to the transcribed loop',
+ 'level_text': 'Proved for all inputs: atomic_any_schedule (any threads of atomic increments, every interleaving: each counter ends at the number of '
+               'increments); split_loses_update (two non-atomic x++ : an interleaving ends at 1) and graph_split_schedule_dependent (the same on the graph '
+               'model: a 3-sequence sample, 2 workers, result differs from the reference); edge_iff / edge_iff_sample (row i of the count-sorted sample has an '
+               'edge to j iff count j > count i and Levenshtein distance exactly 1, via d1or0_spec of C09, all sequences); sort_spec; mutation_reproduces_edit '
+               '(every edge: distance 1, position n >= 0 and symbols such that father = son edited at n); status_spec; sons_exact; graph_schedule_independent '
+               '(atomic increments: for every kernel pair, distance and ratio, sample, every number of workers, every distribution/order of the rows over the '
+               'workers and every complete interleaving, in both parallel phases, the result (edges, son counts, weights, statuses) equals the sequential '
+               'reference cleanSample) and graph_any_two_schedules_agree. Deepening round: reweight_terminates (cleanSample never yields the hang outcome: the '
+               'fuel n+2 always suffices), reweight_two_turns, reweight_graph_forward, reweight_hang_reachable (with a backward edge and a lost increment the '
+               'fuel does run out: the outcome is not dead code), sort_stable (the count sort keeps the input order among ties). Deepening round 2: edge2_iff '
+               '(--distance d > 1, extendSimilarityGraph: a row without distance-one father is linked to row j iff j is later in the stable count order, the '
+               'edit distance is >= 2 and the optimal LCS alignment has <= d differences; the edge is unique and carries exactly that number; via '
+               'fastLCS_decides_bound and d1or0_spec of C09, |a|+|b| < 30000), ratio_test_rational (the integer test of the model is w1/wf <= (p/q)^dist over '
+               'Rat), output_edges_exact (every distance and ratio: the edges obiclean ends with are exactly the edges of edge_iff / edge2_iff that pass the '
+               'ratio test on the weights written for the two nodes), dataset_schedule_independent (data set of several samples: for every per-sample schedule '
+               'every annotation of every record and the records written with or without --head equal the sequential reference cleanDataset), '
+               'dataset_terminates, annot_counts_spec (head / internal / singleton / sample counts and obiclean_head as functions of the per-sample statuses), '
+               'cli_head_spec (--head writes exactly the records with obiclean_head, input order, each once), mutation_value_function_of_pair (every '
+               'obiclean_mutation entry is a function of the son and father sequences only: two samples can only write the same value under the same key, so '
+               'the map iteration order over samples cannot show). Deepening round 3 (Props/C13W.lean): weights_closed_form / weights_closed_form_list '
+               '(obiclean_weight of every sequence of every sample, any kernels / distance / ratio, is specW: weight k = count k + sum over the edges i -> k '
+               'of round(weight i * count k / sum of the counts of the fathers of i), weight_recursion; specW solves the system IsWeightSolution), '
+               'weights_unique (the system has exactly one solution because the count strictly increases along every edge: edge_strict_count / count_rank from '
+               'edge_iff), graph_acyclic (no sequence reaches itself along son -> father edges), reweight_order_independent (firing the rows in ANY order in '
+               'which each row fires once after all its sons gives the same weights as the loop of the code), reweight_guard_is_firing_order (a duplicate-free '
+               'run satisfies the Go condition SonCount == AddedSons at every firing iff it is such an order; Fired.guard_iff), samplecount_spec '
+               '(obiclean_samplecount, and the sizes of obiclean_status / obiclean_weight, = number of samples of the data set in which the record has a count '
+               '= size of merged_sample when its keys are distinct), cli_output_any_size (data set of ANY size: whatever the arrival order of the annotated '
+               'batches of 1000 and of the batches of the returned iterator, with or without --head, a consumer that re-sequences by batch number receives '
+               'exactly the records of cliOutput in data-set order; uses the C03 combinators batchOver / filterOn / sortBatches), rows_verbatim_refine, '
+               'edge_iff_verbatim, edge2_iff_verbatim (the rows built by the loop bodies of buildSamplePairs / extendSimilarityGraph on the VERBATIM '
+               'index-loop transcriptions d1or0 / fastLCSEGFScoreByte, any scratch-buffer content, never panic and are the rows of the structural model: '
+               'edge_iff, mutation_reproduces_edit and edge2_iff hold of them; via d1or0_verbatim_refines / fastLCS_verbatim_refines of C09).',
+ 'level_note': 'Trusted: Lean kernel; the transcriptions Model/Clean.lean, Model/Race.lean; that the repaired increment (under a sync.Mutex) is indivisible '
+               '(Go memory model) - cross-checked by the race detector in the thorough tier. The theorems are about the interleaving MODEL: real goroutine '
+               'schedules are exercised (workers 1..64 x repeats on 16 cores, all outputs equal), not enumerated. Floats are not modelled: math.Round(w*c/swf) '
+               'and w1/wf <= ratio^dist are exact rational arithmetic in the model (ratio_test_rational proves the integer form equals the Rat form), which '
+               'agrees with float64 while w*c < 2^52 and wf*q < 2^52 (and, for distance > 1, a dyadic ratio) - tied by the correspondence check (with '
+               'exact-boundary cases w1/wf = (p/q)^d) and the integer oracle only; the closed form of the weights (weights_closed_form) is therefore a '
+               'statement about the exact-rational rounding roundDiv. reweight_order_independent is about firing orders of the abstract step rfunc (the loop '
+               'of the code is one of them: Forward.reweight_spec); it is not a statement about a concurrent reweightSequences (the code runs it '
+               'sequentially). edge2_iff(_verbatim) needs |a|+|b| < 30000 (sentinel of the kernel, hypothesis of the C09 theorems). cli_output_any_size models '
+               'the batches with the C03 combinators (IBatchOver, MakeISliceWorker keeping batch numbers, FilterOn = filter + Rebatch) and a consumer that '
+               're-sequences by batch number; that the writers of the command do so is property C03/C05 territory (the harness consumer sorts by Order() and '
+               'checks the numbers 0..k-1). samplecount_spec assumes nothing; its last clause needs distinct keys in merged_sample (a Go map). Stability of '
+               'the sort is proved (sort_stable).',
  'trusted_base': LEAN_TB + ['sync.Mutex makes the increment indivisible (Go memory model); Go race detector as cross-check',
- 'float64 arithmetic of reweightSequences / FilterGraphOnRatio agrees with exact rationals in the tested range',
- 'C09: d1or0_spec (proved) and the tie of d1F / bandLCS to D1Or0 / FastLCSScore'],
- 'modelled': ('pkg/obitools/obiclean graph.go (sortSamples, buildSamplePairs, reweightSequences, extendSimilarityGraph, FilterGraphOnRatio, ObicleanStatus, '
- 'makeEdge), obiclean.go (buildSamples via the hook, Mutation, status/weight annotations, annotateOBIClean counts and head flag); kernels from '
- 'pkg/obialign (D1Or0, FastLCSScore) through Model/Lcs.lean; data-set layer: buildSamples, the per-sample loops of CLIOBIClean, Mutation, '
- 'annotateOBIClean and the --head selection (FilterOn(IsHead)), compared with the real CLIOBIClean driven through verif_hooks_cli.go'),
+                  'float64 arithmetic of reweightSequences / FilterGraphOnRatio agrees with exact rationals in the tested range',
+                  'C09: d1or0_spec, fastLCS_decides_bound, d1or0_verbatim_refines, fastLCS_verbatim_refines (proved there) and the tie of the C09 transcriptions to D1Or0 / FastLCSScore', 'C03: the transcriptions of IBatchOver / FilterOn / Rebatch / SortBatches (Model/Iter.lean) and their tie to pkg/obiiter'],
+ 'modelled': 'pkg/obitools/obiclean graph.go (sortSamples, buildSamplePairs, reweightSequences, extendSimilarityGraph, FilterGraphOnRatio, ObicleanStatus, '
+             'makeEdge), obiclean.go (buildSamples via the hook, Mutation, status/weight annotations, annotateOBIClean counts and head flag); kernels from '
+             'pkg/obialign (D1Or0, FastLCSScore) through Model/Lcs.lean; data-set layer: buildSamples, the per-sample loops of CLIOBIClean, Mutation, '
+             'annotateOBIClean and the --head selection (FilterOn(IsHead)), compared with the real CLIOBIClean driven through verif_hooks_cli.go; round 3: the '
+             'batch layer of annotateOBIClean / --head (IBatchOver(1000), MakeISliceWorker, FilterOn(IsHead, 1000).Rebatch) through Model/Iter.lean, observed '
+             'through verif_hooks_cli2.go (batches with their order numbers, arrival order)',
  'assumptions': ['counts >= 1 and < 2^30; sequences are lower-case ASCII letters (SetSequence lower-cases A-Z)',
- 'workers >= 1 (with 0 workers the feeding goroutine blocks forever and no edge is built)',
- 'the progress bars / GML / ratio-table outputs of CLIOBIClean are not observed',
- 'every record has a merged_sample map with at least one sample (no "NA" sample); data sets of at most 1000 records (one batch)']}
+                 'workers >= 1 (with 0 workers the feeding goroutine blocks forever and no edge is built)',
+                 'the progress bars / GML / ratio-table outputs of CLIOBIClean are not observed',
+                 'every record has a merged_sample map with at least one sample (no "NA" sample); data sets of any size (several batches of 1000)']}
